@@ -176,6 +176,8 @@ class C20(Check):
                    'the kernel hands out descriptors that are not open (pairwise different within one open()), pids are not 0; what '
                    'vfork/execvpe/pipe/waitpid/select do is an input of the model or validated by correspondence, not modelled']
 
+    CHILD_COPIES = ['sp dir/ac', 'a"c']
+
     # ---- build: also the helper child --------------------------------------------------------
     def build(self):
         b = super().build()
@@ -188,6 +190,12 @@ class C20(Check):
             if rc != 0:
                 b['impl_ok'] = False
                 b['errors'].append('helper child: ' + (o + e)[-1500:])
+        # copies of the helper under names that only the quoting rules of the command-line form can spell
+        for rel in self.CHILD_COPIES:
+            dst = os.path.join(run, rel)
+            os.makedirs(os.path.dirname(dst), exist_ok=True)
+            if os.path.exists(exe) and ((not os.path.exists(dst)) or os.path.getmtime(dst) < os.path.getmtime(exe)):
+                shutil.copy2(exe, dst)
         # which seam the harness found for the command-line splitter on this tree (see harness/args.cpp, section B)
         self.split_seam = 'direct'
         if b.get('impl_ok') and self.exes.get('impl') and os.path.exists(self.exes['impl']):
@@ -250,9 +258,26 @@ class C20(Check):
 
     # One report per defect: vf groups failing cases by the first 80 characters of the reason (digits -> N), so the
     # reason starts with a tag of constant text that names WHAT is wrong (not the data), padded to 80 characters.
+    @staticmethod
+    def open_fields(spec_line, impl_line):
+        """vf's wildcard is the bare token `?`.  The reference also leaves a FIELD of a token open (`1:?` - joined, the exit code
+        of a child ended by a signal is not specified; `argv=?` - the words of a command line outside the property's class):
+        an implementation token with the same prefix counts as that token."""
+        if '?' not in spec_line:
+            return impl_line
+        st, it = spec_line.split(' '), impl_line.split(' ')
+        for j in range(min(len(st), len(it))):
+            if len(st[j]) > 1 and st[j].endswith('?') and st[j] != '??*' and it[j].startswith(st[j][:-1]):
+                it[j] = st[j]
+        return ' '.join(it)
+
     def judge(self, cases, impl_obs, spec_obs):
         fails = []
+        shown = impl_obs
+        impl_obs = [[self.open_fields(s[k], l) if k < len(s) else l for k, l in enumerate(o)] for s, o in zip(spec_obs, impl_obs)]
         for (i, k, reason) in super().judge(cases, impl_obs, spec_obs):
+            if k < len(shown[i]) and k < len(spec_obs[i]):
+                reason = 'spec expects `%s`, implementation gives `%s`' % (spec_obs[i][k], shown[i][k])
             exp = ['#'] + (spec_obs[i][k].split() if k < len(spec_obs[i]) else [])     # observation lines carry no case number here
             got = ['#'] + (impl_obs[i][k].split() if k < len(impl_obs[i]) else [])
             tag = None
@@ -269,6 +294,11 @@ class C20(Check):
                                                                       'pread': 'read(buffer, length)', 'pread2': 'read(buffer, length, streams)',
                                                                       'pwrite': 'write', 'prun': 'isRunning', 'pwait': 'wait',
                                                                       'pintr': 'interrupt'}.get(exp[1], exp[1]))
+            last = cases[i][-1].split() if cases[i] else []
+            if not tag and last[:1] == ['launch'] and len(last) >= 10 and last[9].split(':')[0] in ('manyfds', 'vpause', 'pause'):
+                tag = 'launch: ' + {'manyfds': 'the parent has more than FD_SETSIZE descriptors open',
+                                    'vpause': 'the child is silent for a while (select/poll answered with time-outs first)',
+                                    'pause': 'the child is silent for 1.2 s between its writes'}[last[9].split(':')[0]]
             if tag:
                 if len(exp) >= 11 and exp[1] == 'popen':
                     # which kernel answer was injected on the open whose observation differs (k-th observation line = k-th observing op)
@@ -360,12 +390,101 @@ class C20(Check):
         for exe in ('./no-such-helper', 'no-such-helper-on-the-path'):
             cases.append(one('start', 'argv', 0, 0, 0, 0, 1, exe, ['zero'], [], 'noexec'))
             cases.append(one('start', 'cmd', 0, 0, 0, 0, 1, exe + ' a b', (), [], 'noexec'))
+        cases += self.launch_tie_cases(rng, thorough, one)
+        # silence of the child during read(buffer, length, streams): virtual (the recorder answers select/poll with time-outs
+        # for 5 s of virtual time, no waiting) in both tiers, one real pause of 1.2 s in the thorough tier
+        for streams, mode in ((1, 1), (2, 2), (3, 3), (7, 3), (5, 1), (6, 2), (3, 0), (7, 1)):
+            for form, size in (('argv', 300), ('cmd', 70000), ('list', 0)):
+                strs = ['zero', 'p'] if form != 'cmd' else ()
+                cases.append(one('open', form, streams, rng.randrange(256), mode if size else 0, size, rng.randrange(1 << 30),
+                                 CHILD + (' p' if form == 'cmd' else ''), strs, rng.choice(env_sets), 'vpause'))
+        # a silence longer than any time-out a reader could sensibly use (2000 s of virtual time)
+        for streams, mode, form in ((3, 3, 'argv'), (1, 1, 'cmd'), (2, 2, 'list')):
+            strs = ['zero', 'p'] if form != 'cmd' else ()
+            cases.append(one('open', form, streams, rng.randrange(256), mode, 300, rng.randrange(1 << 30),
+                             CHILD + (' p' if form == 'cmd' else ''), strs, [], 'vpause:2000000'))
+        if thorough:
+            cases.append(one('open', 'argv', 3, 41, 3, 300, 12, CHILD, ['zero', 'p'], [], 'pause'))
+        # more than FD_SETSIZE descriptors open in the parent (when the hard limit of this machine allows it)
+        if self.many_fds_possible():
+            for streams, mode in ((1, 1), (2, 2), (3, 3), (7, 3)):
+                for form in ('argv', 'cmd', 'list'):
+                    strs = ['zero', 'p'] if form != 'cmd' else ()
+                    cases.append(one('open', form, streams, rng.randrange(256), mode, 300, 2 * rng.randrange(1 << 29),
+                                     CHILD + (' p' if form == 'cmd' else ''), strs, rng.choice(env_sets), 'manyfds'))
         # exit codes
         codes = range(256) if thorough else sorted(set([0, 1, 2, 127, 128, 254, 255] + [rng.randrange(256) for _ in range(12)]))
         for code in codes:
             cases.append(one('open', 'argv', 1, code, 0, 0, code, CHILD, ['zero']))
         return cases
 
+
+    @staticmethod
+    def many_fds_possible():
+        try:
+            import resource
+            soft, hard = resource.getrlimit(resource.RLIMIT_NOFILE)
+            return hard == resource.RLIM_INFINITY or hard >= 2048
+        except Exception:
+            return False
+
+    # ---- round 5: the launch tie samples every copy of the argv / environment preparation -------
+    # Process.cpp carries the code five times: start(cmd) and open(cmd) each copy the split words into an argv array,
+    # start(exe, argc, argv) and open(exe, argc, argv, ..) each prepare args/env, open(exe, List, ..) builds an array and
+    # forwards.  Every entry point gets: 0 / 1 / 2 / 16 / 17 / 40 arguments, environments of 0 / 1 / 16 / 17 / 40 entries,
+    # an empty argument at the first / middle / last position and everywhere, words that need quoting, and (command-line
+    # forms) first words that only the quoting rules can spell - so "first word" and "text up to the first space" differ.
+    TIE_WORDS = ['a', 'a b', '"', 'q"r', ' ', '-x', '--y=z', 'b\\', '\xc8\xff', 'w' * 70, "it's", '\\"', 'a  b', '=']
+    TIE_FORMS = [('start', 'cmd'), ('start', 'argv'), ('start', 'argv0'), ('open', 'cmd'), ('open', 'argv'), ('open', 'argv0'), ('open', 'list')]
+    FIRST_WORDS = [('./ac', './ac'), ('"./ac"', './ac'), ('./a"c"', './ac'), ('"./a"c', './ac'), ('"./sp dir/ac"', './sp dir/ac'),
+                   ('./sp" "dir/ac', './sp dir/ac'), ('"./a\\"c"', './a"c'), ('"sp dir"/ac', 'sp dir/ac')]
+
+    def tie_env(self, m):
+        vals = ['v', '', 'a=b', ' sp ', '\xc8', 'x' * 40, '"q"']
+        return [('K%02d' % i if i % 5 else 'k_%d' % i, vals[i % len(vals)]) for i in range(m)]
+
+    def launch_tie_cases(self, rng, thorough, one):
+        cases = []
+        def emit(api, form, words, env, first=None, exe='./ac'):
+            """words = the arguments the child must see behind argv[0]"""
+            streams = rng.choice([0, 1, 1, 3, 5, 7]) if api == 'open' else 0
+            code, seed = rng.randrange(256), rng.randrange(1 << 30)
+            if form == 'cmd':
+                fw = first if first is not None else exe
+                line = fw + (' ' + self.join_words_bs(words) if words else '')
+                cases.append(one(api, form, streams, code, 0, 0, seed, line, (), env))
+            elif form == 'argv0':       # the vector carries its own argv[0] and its terminating null pointer
+                cases.append(one(api, form, streams, code, 0, 0, seed, exe, ['own0'] + list(words), env))
+            else:                       # argv / list: element 0 is the program-name slot
+                cases.append(one(api, form, streams, code, 0, 0, seed, exe, ['zero'] + list(words), env))
+        def words_n(n, empties=()):
+            return ['' if i in empties else rng.choice(self.TIE_WORDS) for i in range(n)]
+        envs_nz = [1, 16, 17, 40]
+        k = 0
+        for api, form in self.TIE_FORMS:
+            for n in (0, 1, 2, 16, 17, 40):
+                emit(api, form, words_n(n), [])
+                k += 1
+                emit(api, form, words_n(n), self.tie_env(envs_nz[k % 4]))
+            for m in (0, 1, 16, 17, 40):
+                emit(api, form, words_n(2), self.tie_env(m))
+            for n in (1, 2, 3, 16, 17, 40):
+                for empties in ({0}, {n - 1}, {n // 2}, set(range(n))):
+                    k += 1
+                    emit(api, form, words_n(n, empties), self.tie_env(envs_nz[k % 4]) if k % 2 else [])
+            if form in ('argv', 'list'):         # no vector at all: argc == 0 / an empty list
+                cases.append(one(api, form, 1 if api == 'open' else 0, 9, 0, 0, 3, './ac', (), []))
+                cases.append(one(api, form, 1 if api == 'open' else 0, 9, 0, 0, 3, './ac', (), self.tie_env(17)))
+            # program names that need quoting (command-line forms) or contain a space / a quote (the other forms)
+            if form == 'cmd':
+                for fw, _ in self.FIRST_WORDS:
+                    for env in ([], self.tie_env(2)):
+                        emit(api, form, rng.choice([[], ['a'], ['', 'x'], ['x', '']]), env, first=fw)
+            else:
+                for exe in ('./sp dir/ac', './a"c', 'sp dir/ac'):
+                    for env in ([], self.tie_env(2)):
+                        emit(api, form, rng.choice([[], ['a'], ['', 'x'], ['x', '']]), env, exe=exe)
+        return cases
 
     # ---- round 3: quoting round trip, environment machine, Process object machine ----------------
     @staticmethod
@@ -431,16 +550,52 @@ class C20(Check):
                 m.append('pread')
             if not inn or child == 'paused':
                 m += ['pwrite 5', 'pwrite 4096']
+            # `pause`: the recorder first answers select/poll with time-outs for 5 s of virtual time (no real waiting)
             for sm in (1, 2, 3):
                 so, se = out and sm & 1, err and sm & 2
                 if not so and not se:
                     m.append('pread2 %d' % sm)
                 elif so:
                     if not outread and child != 'dying':
-                        m.append('pread2 %d' % sm)
+                        m += ['pread2 %d' % sm, 'pread2 %d pause' % sm]
                 elif child in ('exits', 'dying'):
-                    m.append('pread2 %d' % sm)
+                    m += ['pread2 %d' % sm, 'pread2 %d pause' % sm]
         return [x for x in m if x]
+
+    def pobj_admits(self, case):
+        """is this @P case one the generator can emit?  (every operation determined in the state it meets, closed by pobj_finish)"""
+        if not case or not case[0].startswith('@P'):
+            return True
+        try:
+            mode = int(case[0].split()[2])
+        except (IndexError, ValueError):
+            return False
+        st = (False, False, False, False, 'paused' if mode & 4 else 'exits', False, False)
+        ops = list(case[1:])
+        # the tail pobj_finish writes: pdel | pkill ; pdel | pdel waitfail
+        body = ops
+        for tail in (['pkill', 'pdel'], ['pdel waitfail'], ['pdel']):
+            if ops[-len(tail):] == tail:
+                body = ops[:-len(tail)]
+                break
+        else:
+            return False
+        for op in body:
+            if op.startswith('pdel') or op not in self.pobj_moves(st):
+                return False
+            st = self.pobj_next(st, op, mode)
+        running, child = st[0], st[4]
+        if running and child == 'paused':
+            return tail in (['pkill', 'pdel'], ['pdel waitfail'])
+        return tail == ['pdel'] or (tail == ['pkill', 'pdel'] and 'pkill' in self.pobj_moves(st))
+
+    def shrink(self, case, pred, budget=400):
+        """ddmin, but a Process-object case is only ever reduced to a case the generator itself can emit: otherwise the
+        printed replay could be one whose outcome is not determined (a join on a child nobody signalled, ..)"""
+        if case and case[0].startswith('@P') and self.pobj_admits(case):
+            inner = pred
+            pred = lambda c: self.pobj_admits(c) and inner(c)
+        return super().shrink(case, pred, budget)
 
     def pobj_next(self, st, op, mode):
         running, out, err, inn, child, outread, intr = st
